@@ -13,6 +13,11 @@ Vocabulary used in the statements
 * `Completed r` — `r` is neither `outOfDraws` nor `mismatch`, i.e. the draw list is a complete
   recording of a run of this program (every list recorded by the harness is);
 * `drawBudget k m = 10·m·(k+1) + 1`, `drawBudgetX m = 10·m·2 + 1` — "enough" draws;
+* `sysMaxsize = 2^63 − 1` — `sys.maxsize`: up to that many variables `sample_variables(n, k)` is ONE
+  `random.sample` draw; beyond, it is the code's rejection loop over `randint(1, n)` draws (`rejectVars`,
+  recursion over the draw list).  The shape theorems cover both branches.  The error theorems are `…_partial`
+  (hypothesis `n ≤ sysMaxsize`): beyond, the dense fallback raises OverflowError (defect C13-H1); the full
+  statements `OnlyValueError`, `ValueErrorIff` are refuted on the model (`onlyValueError_fails`, `valueErrorIff_fails`);
 * `allClauses k n planted` — the dense enumeration `all_clauses` of the code; `allClauses_spec` /
   `allClauses_nodup` show that it lists every clause over k distinct variables of 1..n that is
   compatible with the planted assignments exactly once, so its length IS "the number of clauses
